@@ -33,7 +33,8 @@ except ImportError:
 
 SPECS = [("ij,j->i", 2), ("ij,jk->ik", 2), ("i,i->", 2), ("ij,ij->i", 2), ("ijk,k->ij", 2), ("ij->ji", 1),
          ("i,j->ij", 2), ("ii->i", 1), ("ij,j,i->", 3), ("ij,jk,k->i", 3), ("ij->", 1), ("ij,ij->ij", 2),
-         ("ijk,ijk->ijk", 2), ("ijkl,l->ijk", 2), ("ijk,jk->i", 2), ("ijk,ij,k->ik", 3)]
+         ("ijk,ijk->ijk", 2), ("ijkl,l->ijk", 2), ("ijk,jk->i", 2), ("ijk,ij,k->ik", 3),
+         ("ii,ij->j", 2), ("iji,j->i", 2), ("ii->", 1), ("iij->ij", 1)]
 
 
 class XGen:
@@ -140,6 +141,10 @@ class XGen:
             # broadcast-unit axis (not on a repeated letter)
             for ax, ch in enumerate(sp):
                 if sp.count(ch) == 1 and dims[ch] > 1 and ins.count(ch) > 1 and r.random() < p_unit:
+                    shp[ax] = 1
+                elif sp.count(ch) > 1 and dims[ch] > 1 and shp.count(1) == 0 and r.random() < 0.35:
+                    # a unit axis on ONE occurrence of an index that is repeated inside this operand
+                    # ("ii" on shape (1, 3) reads the diagonal e[0, i])
                     shp[ax] = 1
             args.append(self.operand(tuple(shp), depth))
         self.n_einsum += 1
